@@ -167,7 +167,10 @@ def run(ctx):
         "text at centres": f"text_x, text_y = (arr.flatten() for arr in {hp}.get_bin_centers())" in tm,
         "rectangle (xpos[i], ypos[i]), dx[i], dy[i]": "patches.Rectangle((xpos[i], ypos[i]), dx[i], dy[i]" in tm,
         "colour from the same flat index": "bin_color = colors[i]" in tm and "facecolor=bin_color" in tm,
-        "data = get_data(flatten, density)": f"data = get_data({hp}, flatten=True, density=kwargs.pop('density', False))" in tm,
+        "data = get_data(flatten, density)": any(
+            isinstance(n_, ast.Assign) and U(n_.targets[0]) == "data" and isinstance(n_.value, ast.Call) and call_is(n_.value, "get_data")
+            and U(n_.value.args[0]) == hp and U(kwarg(n_.value, "flatten")) == "True" and U(kwarg(n_.value, "density")) == "kwargs.pop('density', False)"
+            for n_ in ast.walk(mapf.node)),
         "value text = data[i]": "text = value_format(data[i])" in tm,
     }
     guards = [n.test for n in ast.walk(mapf.node) if isinstance(n, ast.If) and "show_zero" in U(n.test)]
